@@ -102,7 +102,11 @@ func (c *Ctx) issue(is Issue) {
 	c.nIssue++
 	if c.outDir != "" {
 		_ = os.MkdirAll(c.outDir, 0o755)
-		p := filepath.Join(c.outDir, fmt.Sprintf("%s-%d-%d.json", c.prop, c.seed, c.nIssue))
+		prefix := c.prop
+		if v := os.Getenv("VERIF_REPLAY_PREFIX"); v != "" {
+			prefix = v + "-" + c.prop
+		}
+		p := filepath.Join(c.outDir, fmt.Sprintf("%s-%d-%d.json", prefix, c.seed, c.nIssue))
 		is.Replay = p
 		b, _ := json.MarshalIndent(map[string]interface{}{
 			"property": c.prop, "kind": is.Kind, "what": is.What, "site": is.Site, "class": is.Class,
